@@ -8,7 +8,10 @@
 Two same-typed entries swapped in one list compile without a diagnostic and send every call of one routine to
 another.  None of this is compiled by the pinned build.  The lists live in four languages (C, C initialiser, m4,
 shell), so they are extracted with anchored patterns; the rule only compares the lists with each other, never with a
-frozen copy, so consistent edits pass."""
+frozen copy, so consistent edits pass.
+
+Second clause (also registered under C15): the lazy initialisation of the vector publishes `initialized` only after every other
+field has been stored (init_protocol below)."""
 import collections, re
 
 from core import *
@@ -104,9 +107,87 @@ def run(prop="C14", tier="quick"):
                 F.append(Finding(prop, "R-FATTAB", os.path.join(REPO, "mpn/x86_64/fat/fat.c"), 0, "CPUSETUP_" + cpu, "cpu-path:%s:%s" % (cpu, d),
                                  "the fat dispatcher installs kernels from mpn/%s on a %s CPU, but configure.ac does not select that directory "
                                  "for %s (path %s): those kernels may use instructions the CPU lacks" % (d, cpu, cpu, " ".join(sorted(paths[cpu])))))
+    init_protocol(prop, res, cfuncs, [t.upper() for t in cthr], fc)
     res["samples"].append(dict(rule="R-FATTAB", cpus=len(setups), example=dict(cpu=setups[0][0], chain=setups[0][1].strip())))
     res["samples"].append(dict(rule="R-FATTAB", fields=names[:6] + ["..."], n=len(names), thresholds=thr_fields))
     res["stats"] = dict(res["stats"])
     res["obligations"] = res["stats"]["comparisons"]
     res["exhaustive"] = True
     return res
+
+
+def init_protocol(prop, res, fat_functions, fat_thresholds, fat_c_text):
+    """The dispatch vector is filled lazily by whichever thread first needs it; every reader trusts `initialized`
+    (CPUVEC_THRESHOLD in gmp-impl.h).  So in __gmpn_cpuvec_init every store to another field of __gmpn_cpuvec must dominate the
+    store that sets `initialized` (publish after fill) - the fat build's thread-safety argument stated in fat.c's own comment.
+    fat.c is not part of the pinned build and needs the configure-generated fat.h: a minimal one is synthesised from the same
+    fat_functions / fat_thresholds lists (empty per-directory setups), which is enough to type-check the function."""
+    import sa, r_divzero
+    d = os.path.join(scratch(), "fat-h")
+    os.makedirs(d, exist_ok=True)
+    L = ["/* synthesised by R-FATTAB from configure.ac's fat_functions / fat_thresholds */"]
+    for f in fat_functions:
+        L.append("#ifndef OPERATION_%s\n#undef mpn_%s\n#define mpn_%s (*__gmpn_cpuvec.%s)\n#endif\nDECL_%s (__MPN(%s_init));" % (f, f, f, f, f, f))
+    for t in fat_thresholds:
+        L.append("#undef %s\n#define %s CPUVEC_THRESHOLD (%s)" % (t, t, t.lower()))
+    L.append("#define CPUVEC_INSTALL(vec) do { volatile struct cpuvec_t *p = &__gmpn_cpuvec; \\")
+    for f in fat_functions:
+        L.append("    p->%s = vec.%s; \\" % (f, f))
+    for t in fat_thresholds:
+        L.append("    p->%s = vec.%s; \\" % (t.lower(), t.lower()))
+    L.append("  } while (0)")
+    L.append("#define ASSERT_CPUVEC(vec) do { } while (0)")
+    for nm in sorted(set(re.findall(r"CPUVEC_SETUP_\w+", fat_c_text))):
+        L.append("#define %s do { } while (0)" % nm)
+    open(os.path.join(d, "fat.h"), "w").write("\n".join(L) + "\n")
+    src = os.path.join(REPO, "mpn/x86_64/fat/fat.c")
+    cfg = sa.Config("fat-init", flags=["-DWANT_FAT_BINARY=1", "-I" + d, "-I" + os.path.join(REPO, "mpn/x86_64/fat")], units=[], extra_files=[src])
+    ex = sa.export(cfg)
+    u = ex.load(src)
+    if u.get("errors"):
+        raise AnalysisBroken("R-FATTAB: fat.c does not type-check against the synthesised fat.h (%d errors)" % u["errors"])
+    fns = [f for f in u["functions"] if f["name"] == "__gmpn_cpuvec_init"]
+    if len(fns) != 1:
+        raise AnalysisBroken("R-FATTAB: __gmpn_cpuvec_init not found in fat.c")
+    fn = fns[0]
+    dom, preds = r_divzero.dominators(fn)
+    # local pointers to the vector
+    ptrs = set()
+
+    def names_vec(e):
+        hit = []
+        sa.walk(e, lambda n: hit.append(1) if n.get("k") == "var" and (n.get("name") == "__gmpn_cpuvec" or n["id"] in ptrs) else None)
+        return bool(hit)
+    for b in fn["blocks"]:
+        for el in b["elems"]:
+            e = el["e"]
+            if e.get("k") == "decl":
+                for dd in e["decls"]:
+                    if "init" in dd and "*" in dd["var"].get("ct", "") and names_vec(dd["init"]):
+                        ptrs.add(dd["var"]["id"])
+    stores = []          # (block id, position, field, line)
+    for b in fn["blocks"]:
+        for i, el in enumerate(b["elems"]):
+            def f(n, b=b, i=i, el=el):
+                if n.get("k") == "binop" and n["op"].endswith("=") and n["op"] not in ("==", "!=", "<=", ">="):
+                    l = n["l"]
+                    while isinstance(l, dict) and l.get("k") == "cast":
+                        l = l["e"]
+                    if isinstance(l, dict) and l.get("k") == "member" and names_vec(l["base"]):
+                        stores.append((b["id"], i, l["field"], el["line"]))
+            sa.walk(el["e"], f)
+    flag = [s_ for s_ in stores if s_[2] == "initialized"]
+    fill = [s_ for s_ in stores if s_[2] != "initialized"]
+    res["stats"]["cpuvec_init_stores"] = len(stores)
+    if len(fill) < len(fat_functions) or not flag:
+        raise AnalysisBroken("R-FATTAB: __gmpn_cpuvec_init stores %d fields and sets initialized %d times: anchors moved" % (len(fill), len(flag)))
+    F = res["findings"]
+    for fb, fi, _, fl in flag:
+        res["stats"]["comparisons"] += 1
+        late = [s_ for s_ in fill if not ((s_[0] == fb and s_[1] < fi) or (s_[0] != fb and s_[0] in dom.get(fb, ())))]
+        if late:
+            F.append(Finding(prop, "R-FATTAB", src, fl, "__gmpn_cpuvec_init", "publish-before-fill",
+                             "`initialized` is set at line %d before (or on a path without) the store to __gmpn_cpuvec.%s at line %d: a second "
+                             "thread that sees the flag uses thresholds / function pointers that are not installed yet (CPUVEC_THRESHOLD trusts "
+                             "the flag)" % (fl, late[0][2], late[0][3])))
+    res["samples"].append(dict(rule="R-FATTAB.init", stores=len(stores), flag_lines=[s_[3] for s_ in flag]))
